@@ -82,6 +82,10 @@ def build_variant(variant):
         # builds the miri sysroot and the harness once; workers then call `cargo miri run`
         _run_build(["cargo", "+nightly", "miri", "run", "--offline", "--", "selftest"], env, "miri harness")
         return ["cargo", "+nightly", "miri", "run", "--offline", "-q", "--"]
+    if variant == "fuzz":
+        env["CARGO_TARGET_DIR"] = os.path.join(TARGET, "fuzz")
+        _run_build(["cargo", "+nightly", "fuzz", "build", "monitors"], env, "libFuzzer target")
+        return [os.path.join(TARGET, "fuzz", HOST, "release", "monitors")]
     raise BuildError("unknown variant " + variant)
 
 
@@ -118,7 +122,7 @@ def plan(prop, tier):
     if prop == "C07":
         g.append(("dbg", "native", 12 if q else 16, []))
         g.append(("asan", "asan", 4 if q else 8, []))
-        g.append(("miri", "miri", 6 if q else 16, ["--cases", "24" if q else "96"]))
+        g.append(("miri", "miri", 8 if q else 16, ["--cases", "48" if q else "384"]))
     elif prop == "C09":
         g.append(("dbg", "native", 16, []))
         if not q:
@@ -324,6 +328,60 @@ def finish(prop, tier, seed, t0, coverage, assumptions, violation_lines, known_l
     return 0
 
 
+FUZZ_PROPS = ["C01", "C02", "C03", "C04", "C05", "C06", "C07", "C08", "C09", "C10", "C11", "C12", "C13", "C15"]
+
+
+def run_fuzz_stage(prop, seed, outdir, seconds):
+    """Coverage-guided workload (thorough tier): libFuzzer drives the generator decisions of the same
+    monitors. Returns (stats, violation replay objects, notes)."""
+    stats, viols, notes = {}, [], []
+    try:
+        binary = build_variant("fuzz")[0]
+    except BuildError as e:
+        log(str(e))
+        return stats, viols, ["libFuzzer target could not be built (coverage-guided stage skipped)"]
+    fdir = os.path.join(outdir, "fuzz")
+    corpus = os.path.join(TARGET, "fuzz-corpus", prop)
+    os.makedirs(fdir, exist_ok=True)
+    os.makedirs(corpus, exist_ok=True)
+    env = dict(BASE_ENV)
+    env["DV_FUZZ_PROP"] = prop
+    env["ASAN_OPTIONS"] = "detect_leaks=0:abort_on_error=1"
+    cmd = [binary, corpus, "-max_total_time=%d" % seconds, "-timeout=60", "-max_len=2048", "-len_control=0", "-fork=%d" % NCPU,
+           "-seed=%d" % (seed % (1 << 31)), "-artifact_prefix=" + fdir + "/", "-ignore_timeouts=1", "-ignore_ooms=1", "-ignore_crashes=1"]
+    t0 = time.time()
+    try:
+        p = subprocess.run(cmd, cwd=fdir, env=env, stdout=subprocess.PIPE, stderr=subprocess.STDOUT, text=True, timeout=seconds + 600)
+        out = p.stdout
+    except subprocess.TimeoutExpired as e:
+        out = (e.stdout or b"").decode("utf-8", "replace") if isinstance(e.stdout, bytes) else (e.stdout or "")
+        notes.append("libFuzzer did not stop in time")
+    last = None
+    for line in out.splitlines():
+        m = re.match(r"#(\d+): cov: (\d+) ft: (\d+) corp: (\d+)", line)
+        if m:
+            last = m
+    if last:
+        stats = {"fuzz_executions": int(last.group(1)), "fuzz_coverage_edges": int(last.group(2)), "fuzz_features": int(last.group(3)), "fuzz_corpus_size": int(last.group(4))}
+    stats["fuzz_seconds"] = round(time.time() - t0, 1)
+    arts = sorted(f for f in os.listdir(fdir) if f.startswith(("crash-", "timeout-", "oom-", "leak-")))
+    stats["fuzz_timeout_or_oom_artifacts"] = len([a for a in arts if not a.startswith("crash-")])
+    for a in [a for a in arts if a.startswith("crash-")][:6]:
+        ap = os.path.join(fdir, a)
+        r = subprocess.run([binary, ap], cwd=fdir, env=env, stdout=subprocess.PIPE, stderr=subprocess.STDOUT, text=True, timeout=600)
+        text = r.stdout
+        if r.returncode != 0 and ("MONITOR-VIOLATION" in text or "AddressSanitizer" in text or "unsafe precondition" in text or "panicked" in text):
+            keep = os.path.join(OUT, "replays")
+            os.makedirs(keep, exist_ok=True)
+            dst = os.path.join(keep, "%s-fuzz-%s.bin" % (prop, a[6:18]))
+            shutil.copy(ap, dst)
+            what = [l for l in text.splitlines() if "MONITOR-VIOLATION" in l or "ERROR: AddressSanitizer" in l or "panicked" in l][:2]
+            viols.append({"artifact": dst, "what": " | ".join(what)[:1500]})
+        else:
+            notes.append("crash artifact %s did not reproduce" % a)
+    return stats, viols, notes
+
+
 def run_rust_property(prop, tier, seed):
     t0 = time.time()
     groups = plan(prop, tier)
@@ -418,6 +476,17 @@ def run_rust_property(prop, tier, seed):
             })
             violation_lines.append("VIOLATION property=%s replay=%s" % (prop, rp))
 
+    fuzz_stats = {}
+    if tier == "thorough" and prop in FUZZ_PROPS and not violation_lines and os.environ.get("VERIF_NO_FUZZ") != "1":
+        fuzz_stats, fv, fnotes = run_fuzz_stage(prop, seed, outdir, int(os.environ.get("VERIF_FUZZ_SECONDS", "90")))
+        for v in fv:
+            rp = write_replay(prop, "%s-thorough-seed%d-fuzz-%s.json" % (prop, seed, os.path.basename(v["artifact"])[:-4]), {
+                "property": prop, "tier": tier, "seed": seed, "kind": "fuzz", "artifact": v["artifact"], "what": v["what"],
+                "how_to_replay": "./check %s --replay <this file>" % prop})
+            log("violation: [coverage-guided] %s" % v["what"][:400])
+            violation_lines.append("VIOLATION property=%s replay=%s" % (prop, rp))
+        for nmsg in fnotes:
+            log("note: " + nmsg)
     c = m["counters"]
     if c.get("harness_errors", 0):
         inconclusive.append("harness errors: %s" % sorted(m["sets"].get("harness_errors", []))[:3])
@@ -444,6 +513,7 @@ def run_rust_property(prop, tier, seed):
         "observed_sets": {k: (sorted(v) if len(v) <= 80 else {"count": len(v), "first": sorted(v)[:20]}) for k, v in sorted(m["sets"].items()) if k not in ("interleaving_signatures",)},
         "worker_processes": proc_by_variant,
         "sanitizer_reports": sanitizer_reports,
+        "coverage_guided_stage": fuzz_stats,
         "cases_planned_per_variant": c.get("cases_planned_total"),
     }
     if "interleaving_signatures" in m["sets"]:
@@ -464,6 +534,19 @@ def replay(prop, path):
     if prop == "C16":
         import cli16
         return cli16.replay(r)
+    if r.get("kind") == "fuzz":
+        try:
+            argv = build_variant("dbg")
+        except BuildError as e:
+            log(str(e))
+            return 2
+        env = dict(BASE_ENV)
+        env["DV_FUZZ_PROP"] = prop
+        p = subprocess.run(argv + ["fuzz-replay", r["artifact"]], cwd=HARNESS, env=env)
+        if p.returncode == 0:
+            return 0
+        log("VIOLATION property=%s replay=%s" % (prop, path))
+        return 1
     variant = r.get("variant", "dbg")
     try:
         argv = build_variant(variant)
